@@ -148,7 +148,12 @@ fn expected_frame(v: (u8, u8), ports: &[PortCfg], per_kind: &dyn Fn(Kind) -> Sh,
 		}
 		pf.push((format!("P{}", p.port + 1), Sh::Struct(f)));
 	}
-	let mut fields = vec![("id".to_string(), Sh::Prim(Ty::I32)), ("ports".to_string(), Sh::Struct(pf))];
+	let mut fields = vec![("id".to_string(), Sh::Prim(Ty::I32))];
+	// same for a game without players: a `ports` struct without fields cannot exist in Arrow, the
+	// entry is either left out or (if the library allowed it) empty
+	if !pf.is_empty() || with_empty_end {
+		fields.push(("ports".to_string(), Sh::Struct(pf)));
+	}
 	if spec::gte(v, (2, 2)) {
 		fields.push(("start".into(), per_kind(Kind::Start)));
 	}
@@ -226,10 +231,17 @@ fn arrow_inner(input: &[u8], rg: &RefGame) -> Result<u64, (String, String)> {
 		}
 		Ok(())
 	};
-	let ports_sa = view::arrow_child(&sa, "ports").and_then(view::arrow_struct).ok_or_else(|| e("name", "no struct 'ports'".into()))?;
-	no_nulls(ports_sa, "ports")?;
 	no_nulls(view::arrow_child(&sa, "id").unwrap(), "id")?;
+	let ports_sa = match view::arrow_child(&sa, "ports").and_then(view::arrow_struct) {
+		Some(x) => Some(x),
+		None if rg.ports.is_empty() => None,
+		None => return Err(e("name", "no struct 'ports'".into())),
+	};
+	if let Some(x) = ports_sa {
+		no_nulls(x, "ports")?;
+	}
 	for (pi, pc) in rg.ports.iter().enumerate() {
+		let ports_sa = ports_sa.unwrap();
 		let pname = format!("P{}", pc.port + 1);
 		let psa = view::arrow_child(ports_sa, &pname).and_then(view::arrow_struct).ok_or_else(|| e("name", format!("no struct ports.{}", pname)))?;
 		no_nulls(psa, &format!("ports.{}", pname))?;
@@ -373,22 +385,19 @@ fn arrow_inner(input: &[u8], rg: &RefGame) -> Result<u64, (String, String)> {
 
 pub fn run() {
 	let cx = ctx();
-	cx.note("rule", json!("all 784 versions x all 80 non-empty port/Ice-Climbers configurations with a 2-row game (second row: one character absent, one item), plus (thorough) the C04 history exploration; expected schema built twice - from the independent SPEC transcription and from gen/resources/frames.json read at check time; every exported leaf addressed by NAME and compared with the in-memory column, struct validity with presence, list offsets with item offsets; import direction must serialise to the identical .slp; non-trivial = has an absence or an item"));
+	cx.note("rule", json!("all 784 versions x all 81 port/Ice-Climbers configurations (the player-less one included) with a 2-row game (second row: one character absent, one item), plus (thorough) the C04 history exploration; expected schema built twice - from the independent SPEC transcription and from gen/resources/frames.json read at check time; every exported leaf addressed by NAME and compared with the in-memory column, struct validity with presence, list offsets with item offsets; import direction must serialise to the identical .slp; non-trivial = has an absence or an item"));
 	cx.note("exhaustive", json!(true));
-	cx.note("assumptions", json!(["nullability flags and field metadata are not part of the schema comparison (the property names field names, nesting, order and primitive types)", "port configurations are the 80 with at least one occupied port", "for 3.0-3.6, where Frame End carries no field, `end` is accepted as omitted or empty: Arrow cannot represent a struct without fields"]));
+	cx.note("assumptions", json!(["nullability flags and field metadata are not part of the schema comparison (the property names field names, nesting, order and primitive types)", "for 3.0-3.6, where Frame End carries no field, `end` is accepted as omitted or empty, and likewise `ports` for a game without players: Arrow cannot represent a struct without fields"]));
 	let mut cases: Vec<AbsReplay> = vec![];
 	let all_ports = all_port_configs();
 	for v in spec::v_all() {
 		for ports in &all_ports {
 			let regime = spec::regime(v);
-			if ports.is_empty() {
-				// no game has zero players, and Arrow cannot represent the field-less `ports` struct
-				continue;
-			}
-			let mut a = base_replay(v, ports.clone(), 2);
+			// without players and before 2.2 (no Frame Start) there is no event that could make a frame
+			let mut a = base_replay(v, ports.clone(), if ports.is_empty() && regime == 0 { 0 } else { 2 });
 			a.metadata = None;
 			a.fill = Fill::A;
-			if regime == 2 {
+			if regime == 2 && !a.frames.is_empty() {
 				a.frames[1].items = 1;
 			}
 			// the last character is absent from the second row (if that leaves someone, or the regime allows empty frames)
